@@ -27,7 +27,8 @@ Inductive jty : Type :=
 | TyUrlSchemes                            (* list[str] | dict[str, None | str | UrlSchemeType] *)
 | TySubDelims                             (* two one-character strings *)
 | TyInventories                           (* dict[str, (str, str | None)] *)
-| TySlugFunc.                             (* None | callable | import string of a callable *)
+| TySlugFunc                              (* None | callable | import string of a callable *)
+| TyPosInt.                               (* a positive int *)
 
 Definition seq_items (kinds : list skind) (v : jv) : option (list jv) :=
   match v with
@@ -74,6 +75,7 @@ Fixpoint has_type (E : env) (v : jv) (t : jty) : Prop :=
   | TySlugFunc =>
       v = JNull \/ (exists n, v = JCallable n) \/
       (exists s n, v = JStr s /\ mem_N c_dot s = true /\ e_import E s = ImpOk (JCallable n))
+  | TyPosInt => exists z, v = JInt z /\ (0 < z)%Z
   end.
 
 (* the validator tree that implements a documented type *)
@@ -93,6 +95,7 @@ Fixpoint vexpr_of (t : jty) : vexpr :=
   | TySubDelims => VCustom n_check_sub_delimiters
   | TyInventories => VCustom n_check_inventories
   | TySlugFunc => VCustom n_check_heading_slug_func
+  | TyPosInt => VCustom n_check_positive_int
   end.
 
 (* the documented type of a field, from its annotation.  Where the annotation alone does not fix the
@@ -137,6 +140,8 @@ Definition doc_ty (f : field) : option jty :=
         match f_ann f with ADict AStr (ATuple2 AStr (AOr AStr ANone)) => Some TyInventories | _ => None end
       else if str_eqb n n_check_heading_slug_func then
         match f_ann f with AOr ACallable ANone => Some TySlugFunc | _ => None end
+      else if str_eqb n n_check_positive_int then
+        match f_ann f with AInt => Some TyPosInt | _ => None end
       else None
   | VIn opts => match f_ann f with AInt => Some (TyIntIn opts) | _ => None end
   | _ => ty_of_ann (f_ann f)
@@ -228,3 +233,67 @@ Definition clean_item (s : str) : bool :=
   negb (mem_N c_comma s) &&
   match s with c :: _ => negb (mem_N c ws3) | [] => false end &&
   match rev s with c :: _ => negb (mem_N c ws3) | [] => false end.
+
+(* ---------- which validator code the table reaches ---------- *)
+
+Inductive ckind : Type :=
+| CkAny | CkInstanceOf | CkOptional | CkIn | CkDeepIterable | CkDeepMapping | CkCustom (n : str).
+
+Fixpoint uses (k : ckind) (e : vexpr) : bool :=
+  match e with
+  | VAny => match k with CkAny => true | _ => false end
+  | VInstanceOf _ _ => match k with CkInstanceOf => true | _ => false end
+  | VOptional e' => match k with CkOptional => true | _ => uses k e' end
+  | VIn _ => match k with CkIn => true | _ => false end
+  | VDeepIterable m i => match k with CkDeepIterable => true | _ => uses k m || uses k i end
+  | VDeepMapping a b c => match k with CkDeepMapping => true | _ => uses k a || uses k b || uses k c end
+  | VCustom n => match k with CkCustom n' => str_eqb n n' | _ => false end
+  end.
+
+(* everything of dc_validators.py and of the check_* functions that the model transcribes *)
+Definition all_ckinds : list ckind :=
+  [CkAny; CkInstanceOf; CkOptional; CkIn; CkDeepIterable; CkDeepMapping;
+   CkCustom n_check_extensions; CkCustom n_check_url_schemes; CkCustom n_check_sub_delimiters;
+   CkCustom n_check_inventories; CkCustom n_check_heading_slug_func; CkCustom n_check_fence_as_directive;
+   CkCustom n_check_positive_int].
+
+Definition combinator_used (fs : list field) (k : ckind) : bool := existsb (fun f => uses k (f_val f)) fs.
+
+(* the rule of the option-string if-chain that decides a field (its position) *)
+Fixpoint rule_index (rules : list (ocond * okind)) (f : field) : option nat :=
+  match rules with
+  | [] => None
+  | (c, _) :: r => if eval_cond f c then Some O else option_map S (rule_index r f)
+  end.
+
+Definition rule_used (rules : list (ocond * okind)) (fs : list field) (i : nat) : bool :=
+  existsb (fun f => negb (f_omit_docutils f) &&
+                    match rule_index rules f with Some j => Nat.eqb i j | None => false end) fs.
+
+Fixpoint ocond_eqb (a b : ocond) : bool :=
+  match a, b with
+  | CNameIs x, CNameIs y => str_eqb x y
+  | CTypeIs x, CTypeIs y => ann_eqb x y
+  | CTypeIn x, CTypeIn y => list_eqb ann_eqb x y
+  | COr a1 b1, COr a2 b2 => ocond_eqb a1 a2 && ocond_eqb b1 b2
+  | COriginDict, COriginDict | CLiteralStr, CLiteralStr => true
+  | _, _ => false
+  end.
+
+(* branches of _attr_to_optparse_option that no docutils-visible field reaches today: Literal choices,
+   tuple[str, str] (sub_delimiters is omitted from the docutils settings), int | None, Iterable[str] | None
+   (ref_domains is omitted) *)
+Definition known_unused_conds : list ocond :=
+  [CLiteralStr; CTypeIs (ATuple2 AStr AStr); CTypeIs (AOr AInt ANone); CTypeIs (AOr (AIterable AStr) ANone)].
+
+Definition rules_reached (rules : list (ocond * okind)) (fs : list field) : bool :=
+  forallb (fun i => match nth_error rules i with
+                    | Some (c, _) => rule_used rules fs i || existsb (ocond_eqb c) known_unused_conds
+                    | None => true
+                    end) (seq 0 (List.length rules)).
+
+Definition unused_rule_indices (rules : list (ocond * okind)) (fs : list field) : list nat :=
+  filter (fun i => negb (rule_used rules fs i)) (seq 0 (List.length rules)).
+
+Definition every_field_decided (rules : list (ocond * okind)) (fs : list field) : bool :=
+  forallb (fun f => f_omit_docutils f || is_ok (optparse_kind rules f)) fs.
